@@ -102,61 +102,122 @@ def _guarded_ops(body):
     return ops
 
 
-def _transform(st: ast.If):
+def _transform(st: ast.If, env=None, module=None):
     if len(st.body) != 1 or len(st.orelse) != 1 or _raise_name(st.orelse[0]) != "ValueError":
         raise Untranslatable("unexpected shape of the `verify_fft_dtype_possible` branch")
-    r = _data_call(st.body[0], ("torch.fft.fftn", "torch.fft.ifftn"))
+    return _transform_call(st.body[0], env or {}, module)
+
+
+def _dim_guard(st):
+    """`if not all(<elt> for v in <iter>): raise TypeError` -> (iter text, v, elt) else None"""
+    if not (isinstance(st, ast.If) and st.body and all(isinstance(b, ast.Raise) for b in st.body) and not st.orelse):
+        return None
+    t = st.test
+    if not (_raise_name(st.body[0]) == "TypeError" and isinstance(t, ast.UnaryOp) and isinstance(t.op, ast.Not)
+            and isinstance(t.operand, ast.Call) and ast.unparse(t.operand.func) == "all"
+            and len(t.operand.args) == 1 and isinstance(t.operand.args[0], ast.GeneratorExp)):
+        return None
+    g = t.operand.args[0]
+    if len(g.generators) != 1 or g.generators[0].ifs or not isinstance(g.generators[0].target, ast.Name):
+        return None
+    return ast.unparse(g.generators[0].iter), g.generators[0].target.id, g.elt
+
+
+def _norm_pair(nm, env, module):
+    """norm expression -> (lean norm when normalized, lean norm otherwise)"""
+    if nm is None:
+        return ".backward", ".backward"
+    if isinstance(nm, ast.Name) and nm.id in env:
+        return _norm_pair(env[nm.id], env, module)
+    if isinstance(nm, ast.IfExp) and ast.unparse(nm.test) in ("normalized", "bool(normalized)", "not normalized"):
+        a, b = ast.unparse(nm.body).replace('"', "'"), ast.unparse(nm.orelse).replace('"', "'")
+        if a not in _NORMS or b not in _NORMS:
+            raise Untranslatable(f"unknown norm `{ast.unparse(nm)}`")
+        return (_NORMS[b], _NORMS[a]) if ast.unparse(nm.test) == "not normalized" else (_NORMS[a], _NORMS[b])
+    if isinstance(nm, ast.Subscript) and ast.unparse(nm.slice) in ("normalized", "bool(normalized)", "int(normalized)"):
+        # table dispatch `(None, "ortho")[bool(normalized)]`, the table possibly a module-level constant
+        tbl = nm.value
+        if isinstance(tbl, ast.Name) and module is not None:
+            for d in module.body:
+                if isinstance(d, ast.Assign) and len(d.targets) == 1 and ast.unparse(d.targets[0]) == tbl.id:
+                    tbl = d.value
+        if isinstance(tbl, (ast.Tuple, ast.List)) and len(tbl.elts) == 2:
+            a, b = (ast.unparse(e).replace('"', "'") for e in tbl.elts)
+            if a in _NORMS and b in _NORMS:
+                return _NORMS[b], _NORMS[a]
+    txt = ast.unparse(nm).replace('"', "'")
+    if txt in _NORMS:
+        return _NORMS[txt], _NORMS[txt]
+    raise Untranslatable(f"unknown norm `{ast.unparse(nm)}`")
+
+
+def _transform_call(st, env, module):
+    r = _data_call(st, ("torch.fft.fftn", "torch.fft.ifftn"))
     if r is None:
-        raise Untranslatable(f"unexpected statement `{ast.unparse(st.body[0])}`")
+        raise Untranslatable(f"unexpected statement `{ast.unparse(st)}`")
     f, call = r
     d = _kw(call, "dim")
     if d is None or ast.unparse(d) != "dim" or len(call.args) != 1:
         raise Untranslatable("transform is not over `dim`")
-    nm = _kw(call, "norm")
-    if nm is None:
-        nt = nf = ".backward"
-    elif isinstance(nm, ast.IfExp) and ast.unparse(nm.test) == "normalized":
-        a, b = ast.unparse(nm.body), ast.unparse(nm.orelse)
-        if a not in _NORMS or b not in _NORMS:
-            raise Untranslatable(f"unknown norm `{ast.unparse(nm)}`")
-        nt, nf = _NORMS[a], _NORMS[b]
-    elif isinstance(nm, ast.IfExp) and ast.unparse(nm.test) == "not normalized":
-        a, b = ast.unparse(nm.body), ast.unparse(nm.orelse)
-        if a not in _NORMS or b not in _NORMS:
-            raise Untranslatable(f"unknown norm `{ast.unparse(nm)}`")
-        nt, nf = _NORMS[b], _NORMS[a]
-    elif ast.unparse(nm) in _NORMS:
-        nt = nf = _NORMS[ast.unparse(nm)]
-    else:
-        raise Untranslatable(f"unknown norm `{ast.unparse(nm)}`")
-    inv = "true" if f.endswith("ifftn") else "false"
-    return f"(.transform {inv} {nt} {nf})"
+    nt, nf = _norm_pair(_kw(call, "norm"), env, module)
+    return f"(.transform {'true' if f.endswith('ifftn') else 'false'} {nt} {nf})"
 
 
-def _plan_of(fn: ast.FunctionDef):
-    """-> (steps [(guard, op)], per-element dim test node)"""
+def _plan_of(fn: ast.FunctionDef, module: ast.Module = None):
+    """-> (steps [(guard, op)], per-element dim test node).  Understands the statement forms that mean the same thing: the dim
+    check inline or in a private helper of the module; `if ok: transform else: raise` or the guard clause `if not ok: raise`
+    followed by the transform; the norm inline, hoisted into a local, or dispatched through a two-entry table; the trailing
+    `if complex_input: data = view_as_real(data); return data` or `return view_as_real(data) if complex_input else data`."""
     steps = []
     dim_test = None
+    env = {}                   # hoisted locals (only `norm = …` style bindings that the transform call reads)
+    guarded = False            # a guard clause `if not verify_fft_dtype_possible(data, dim): raise ValueError` was seen
+    defs = {d.name: d for d in module.body if isinstance(d, ast.FunctionDef)} if module is not None else {}
     for st in fn.body:
         if _is_docstring(st):
             continue
         if isinstance(st, ast.Return):
-            if ast.unparse(st.value) != "data":
+            v = st.value
+            if isinstance(v, ast.IfExp) and ast.unparse(v.test) == "complex_input" and ast.unparse(v.orelse) == "data" \
+                    and ast.unparse(v.body).replace(" ", "") == "view_as_real(data)":
+                steps.append((".complexInput", ".viewReal"))
+                return steps, dim_test
+            if ast.unparse(v) != "data":
                 raise Untranslatable(f"unexpected `{ast.unparse(st)}`")
             return steps, dim_test
+        # the dim check extracted into a helper: `_check(dim, …)` whose body is the guard over its first parameter
+        if isinstance(st, ast.Expr) and isinstance(st.value, ast.Call) and isinstance(st.value.func, ast.Name) \
+                and st.value.func.id in defs and st.value.args and ast.unparse(st.value.args[0]) == "dim":
+            h = defs[st.value.func.id]
+            hb = [b for b in h.body if not _is_docstring(b)]
+            g = _dim_guard(hb[0]) if len(hb) == 1 else None
+            if g is None or not h.args.args or g[0] != h.args.args[0].arg:
+                raise Untranslatable(f"helper `{h.name}` is not the dim check")
+            dim_test = (g[1], g[2])
+            steps.append((".always", ".checkDims"))
+            continue
+        if isinstance(st, ast.Assign) and len(st.targets) == 1 and isinstance(st.targets[0], ast.Name) \
+                and st.targets[0].id not in ("data", "dim") and st.targets[0].id.startswith("norm"):
+            env[st.targets[0].id] = st.value
+            continue
+        if guarded and _data_call(st, ("torch.fft.fftn", "torch.fft.ifftn")) is not None:
+            steps.append((".always", _transform_call(st, env, module)))
+            guarded = False
+            continue
+        if isinstance(st, ast.If) and not st.orelse and ast.unparse(st.test).replace(" ", "") == "notverify_fft_dtype_possible(data,dim)":
+            if not (len(st.body) == 1 and _raise_name(st.body[0]) == "ValueError") or guarded:
+                raise Untranslatable("unexpected shape of the dtype guard clause")
+            guarded = True
+            continue
+        if guarded:
+            raise Untranslatable("statement between the dtype guard clause and the transform")
         if isinstance(st, ast.If):
             test = ast.unparse(st.test)
             if st.body and all(isinstance(b, ast.Raise) for b in st.body) and not st.orelse:
-                t = st.test
-                if not (_raise_name(st.body[0]) == "TypeError" and isinstance(t, ast.UnaryOp) and isinstance(t.op, ast.Not)
-                        and isinstance(t.operand, ast.Call) and ast.unparse(t.operand.func) == "all"
-                        and len(t.operand.args) == 1 and isinstance(t.operand.args[0], ast.GeneratorExp)):
+                g = _dim_guard(st)
+                if g is None or g[0] != "dim":
                     raise Untranslatable(f"unexpected guard `{test}`")
-                g = t.operand.args[0]
-                if (len(g.generators) != 1 or ast.unparse(g.generators[0].iter) != "dim" or g.generators[0].ifs
-                        or not isinstance(g.generators[0].target, ast.Name)):
-                    raise Untranslatable(f"unexpected guard `{test}`")
-                dim_test = (g.generators[0].target.id, g.elt)
+                dim_test = (g[1], g[2])
                 steps.append((".always", ".checkDims"))
             elif test in ("centered", "complex_input"):
                 if st.orelse:
@@ -164,7 +225,7 @@ def _plan_of(fn: ast.FunctionDef):
                 for op in _guarded_ops(st.body):
                     steps.append((".centered" if test == "centered" else ".complexInput", op))
             elif test.replace(" ", "") == "verify_fft_dtype_possible(data,dim)":
-                steps.append((".always", _transform(st)))
+                steps.append((".always", _transform(st, env, module)))
             else:
                 raise Untranslatable(f"unexpected condition `{test}`")
             continue
@@ -187,7 +248,7 @@ def _c01_extra():
         try:
             if tree is None:
                 raise err
-            steps, dim_test = _plan_of(find_function(tree, name))
+            steps, dim_test = _plan_of(find_function(tree, name), tree)
             body = ", ".join(f"⟨{g}, {o}⟩" for g, o in steps)
             out.append(f"/-- translated from `{T}`:`{name}` (ordered, flag-guarded call sequence) -/\n"
                        f"def {kp} : List Fft.Step := [{body}]\n")
@@ -256,7 +317,18 @@ def _c01_extra():
 
 
 def _verify_dtype(fn: ast.FunctionDef) -> str:
+    """the predicate as ONE decision tree over three Boolean inputs: straight-line Boolean intermediates, `if c: return e` early
+    returns, if/else, conditional expressions all become `if c then e else rest` (the bridge proves equality with the model by
+    case analysis on the inputs, not by comparing text)"""
     env: dict[str, str] = {}
+    sizes: set[str] = set()      # locals bound to `[data.size(idx) for idx in dims]`
+
+    def is_sizes(n) -> bool:
+        if isinstance(n, ast.Name):
+            return n.id in sizes
+        txt = ast.unparse(n).replace(" ", "")
+        return txt in ("[data.size(idx)foridxindims]", "[data.shape[idx]foridxindims]", "(data.size(idx)foridxindims)",
+                       "[data.size(_)for_indims]", "[data.shape[_]for_indims]")
 
     def b(n) -> str:
         if isinstance(n, ast.Name) and n.id in env:
@@ -268,26 +340,63 @@ def _verify_dtype(fn: ast.FunctionDef) -> str:
             return "(" + op.join(b(v) for v in n.values) + ")"
         if isinstance(n, ast.UnaryOp) and isinstance(n.op, ast.Not):
             return f"(!{b(n.operand)})"
+        if isinstance(n, ast.IfExp):
+            return f"(if {b(n.test)} then {b(n.body)} else {b(n.orelse)})"
+        if isinstance(n, ast.Call) and ast.unparse(n.func) == "bool" and len(n.args) == 1:
+            return b(n.args[0])
         txt = ast.unparse(n).replace(" ", "")
-        if txt == "data.dtype==torch.complex64":
-            return "is_complex64_dtype"
-        if txt == "data.dtype==torch.float32":
-            return "is_float32_dtype"
-        if txt in ("all((is_power_of_two(_)for_in[data.size(idx)foridxindims]))", "all(is_power_of_two(_)for_in[data.size(idx)foridxindims])",
-                   "all((is_power_of_two(data.size(idx))foridxindims))", "all(is_power_of_two(data.size(idx))foridxindims)"):
-            return "all_pow2"
+        for dt, name in (("torch.complex64", "is_complex64_dtype"), ("torch.float32", "is_float32_dtype")):
+            if txt in (f"data.dtype=={dt}", f"{dt}==data.dtype", f"data.dtypeis{dt}"):
+                return name
+            if txt in (f"data.dtype!={dt}", f"{dt}!=data.dtype", f"data.dtypeisnot{dt}"):
+                return f"(!{name})"
+        # all(is_power_of_two(v) for v in <sizes>)  /  all(is_power_of_two(data.size(idx)) for idx in dims)
+        if isinstance(n, ast.Call) and ast.unparse(n.func) == "all" and len(n.args) == 1 \
+                and isinstance(n.args[0], (ast.GeneratorExp, ast.ListComp)) and len(n.args[0].generators) == 1 \
+                and not n.args[0].generators[0].ifs and isinstance(n.args[0].generators[0].target, ast.Name):
+            g = n.args[0]
+            v = g.generators[0].target.id
+            elt = ast.unparse(g.elt).replace(" ", "")
+            it = g.generators[0].iter
+            if elt == f"is_power_of_two({v})" and is_sizes(it):
+                return "all_pow2"
+            if elt in (f"is_power_of_two(data.size({v}))", f"is_power_of_two(data.shape[{v}])") and ast.unparse(it) == "dims":
+                return "all_pow2"
         raise Untranslatable(f"boolean expression `{ast.unparse(n)}`")
 
-    ret = None
-    for st in fn.body:
-        if _is_docstring(st):
-            continue
-        if isinstance(st, ast.Assign) and len(st.targets) == 1 and isinstance(st.targets[0], ast.Name):
-            env[st.targets[0].id] = b(st.value)
-        elif isinstance(st, ast.Return):
-            ret = b(st.value)
-        else:
-            raise Untranslatable(f"unexpected statement `{ast.unparse(st)[:50]}`")
+    def block(stmts) -> str | None:
+        """-> Lean Bool term of the value returned by this statement list, None when it falls through"""
+        for k, st in enumerate(stmts):
+            if _is_docstring(st):
+                continue
+            if isinstance(st, ast.Assign) and len(st.targets) == 1 and isinstance(st.targets[0], ast.Name):
+                if is_sizes(st.value):
+                    sizes.add(st.targets[0].id)
+                else:
+                    env[st.targets[0].id] = b(st.value)
+            elif isinstance(st, ast.Return) and st.value is not None:
+                return b(st.value)
+            elif isinstance(st, ast.If):
+                saved = dict(env)
+                th = block(st.body)
+                env.clear(); env.update(saved)
+                el = block(st.orelse) if st.orelse else None
+                env.clear(); env.update(saved)
+                if th is not None and el is not None:
+                    return f"(if {b(st.test)} then {th} else {el})"
+                rest = block(stmts[k + 1:])
+                if rest is None:
+                    raise Untranslatable("a branch falls off the end")
+                if th is not None:
+                    return f"(if {b(st.test)} then {th} else {rest})"
+                if el is not None:
+                    return f"(if {b(st.test)} then {rest} else {el})"
+                raise Untranslatable("`if` without a return changes nothing the translator tracks")
+            else:
+                raise Untranslatable(f"unexpected statement `{ast.unparse(st)[:50]}`")
+        return None
+
+    ret = block(fn.body)
     if ret is None:
         raise Untranslatable("no return")
     return f"def verify_fft_dtype_possible (is_complex64_dtype is_float32_dtype all_pow2 : Bool) : Bool :=\n  {ret}\n"
@@ -510,7 +619,15 @@ def _fn_facts1(fn: ast.FunctionDef):
             pass
     body = [s for s in fn.body if not _is_docstring(s)]
     rets = [n for n in ast.walk(fn) if isinstance(n, ast.Return)]
-    f["earlyReturns"] = sum(1 for r in rets if not (body and r is body[-1]))
+
+    def boolish(e):
+        return e is not None and (
+            (isinstance(e, ast.Constant) and isinstance(e.value, bool)) or isinstance(e, (ast.Compare, ast.BoolOp))
+            or (isinstance(e, ast.UnaryOp) and isinstance(e.op, ast.Not))
+            or (isinstance(e, ast.Call) and ast.unparse(e.func) in ("all", "any", "isinstance", "bool", "is_power_of_two")))
+    # an early `return <boolean expression>` of a predicate is a branch of its decision tree (its value is tied by the translated
+    # kernel / correspondence); what is counted is an early exit that hands back a tensor before the rest of the body ran
+    f["earlyReturns"] = sum(1 for r in rets if not (body and r is body[-1]) and not boolish(r.value))
     return f
 
 
